@@ -14,33 +14,34 @@ import sys
 ROOT = os.path.dirname(os.path.dirname(os.path.dirname(os.path.abspath(__file__))))
 
 # (finding id, what, predicate on sig, side file or None)
-SPECIFIC = re.compile(r"^(InlineTrans@\w+)\|(\w+):(\w+)\|([^|]*)\|(.*)\|(\w+)\|(N\d)\|(R\d)"
-                      r"\|(\w+)\|bad@(.*)$")
+FEATURES = ["component-actual-not-shifted-to-dummy-bounds",
+            "bounds-inquiry-answers-for-the-actual",
+            "whole-dummy-becomes-whole-larger-actual"]
 
 
-def fields(sig):
-    mat = SPECIFIC.match(sig)
+def first_feature(sig):
+    """The highest-priority known mechanism named in a `wrong[..]|features`
+    signature (None for every other signature)."""
+    mat = re.match(r"^InlineTrans\|wrong\[[^\]]*\]\|(.+)$", sig)
     if not mat:
         return None
-    return dict(zip(("label", "fam", "kinds", "body", "actuals", "place",
-                     "naming", "ret", "diag", "bad"), mat.groups()))
+    feats = mat.group(1).split("+")
+    for feat in FEATURES:
+        if feat in feats:
+            return feat
+    return None
 
 
 def is_member_shift(sig):
-    fld = fields(sig)
-    return bool(fld) and fld["diag"] == "wrong" and "w%d" in fld["actuals"] \
-        and any(k in fld["kinds"] for k in "ZL") and "bnd" not in fld["body"]
+    return first_feature(sig) == FEATURES[0]
 
 
 def is_inquiry(sig):
-    fld = fields(sig)
-    return bool(fld) and fld["diag"] == "wrong" and "bnd" in fld["body"]
+    return first_feature(sig) == FEATURES[1]
 
 
 def is_short(sig):
-    fld = fields(sig)
-    return bool(fld) and fld["diag"] == "wrong" and "a~short" in fld["actuals"] \
-        and "bnd" not in fld["body"] and not is_member_shift(sig)
+    return first_feature(sig) == FEATURES[2]
 
 
 FINDINGS = [
@@ -75,17 +76,17 @@ FINDINGS = [
      "an array component actual argument (w%d) associated with a dummy whose lower bound "
      "is not 1 (x(0:mx), x(2:)) is indexed with the dummy's subscripts without shifting "
      "them to the component's bounds",
-     is_member_shift, "known/C07-member-shift.txt"),
+     is_member_shift, None),
     ("C07-bounds-inquiry-on-dummy",
      "LBOUND/UBOUND of a dummy array are inlined as LBOUND/UBOUND of the actual argument, "
      "which differ when the dummy is declared with other bounds (x(0:mx), x(2:)) or a "
      "smaller extent",
-     is_inquiry, "known/C07-bounds-inquiry.txt"),
+     is_inquiry, None),
     ("C07-explicit-shape-smaller-than-actual",
      "a whole-array reference to an explicit-shape dummy x(nx) that is associated with a "
      "larger actual array is inlined as the whole actual array (x = x + 1, sum(x) touch "
      "all elements of a instead of the first nx)",
-     is_short, "known/C07-short-dummy.txt"),
+     is_short, None),
 ]
 
 
